@@ -23,6 +23,10 @@ import (
 // Schema is a GraphQL schema.
 type Schema struct {
 	Object
+
+	// implicit is true if the schema was not declared by a schema block but
+	// formed from the types named Query, Mutation and Subscription.
+	implicit bool
 }
 
 // Rank of the type.
